@@ -230,7 +230,7 @@ def run_hist_batch(ck, harness, model):
     else:
         cases = gen_hist_cases(ck)
     hl = [c["line"] for c in cases]
-    hout, crashes = cc.pc.run_harness_resilient(harness, hl)
+    hout, crashes = cc.run_resilient(harness, hl)
     ml = [hist_model_line(l, o) for l, o in zip(hl, hout)]
     rc, mout, merr = vv.run_lines(model, "\n".join(ml) + "\n")
     if rc != 0 or len(mout) != len(ml):
@@ -240,6 +240,8 @@ def run_hist_batch(ck, harness, model):
         ck.count()
         ck.nontriv(c["line"])
         ho, mo = hout[k], mout[k]
+        if ho == "SKIPPED":
+            continue
         atexit = ho is not None and ho.startswith("CRASH-AT-EXIT ")
         if atexit:
             ho = ho[len("CRASH-AT-EXIT "):]
@@ -320,7 +322,7 @@ def run_probh_batch(ck, harness, model):
     else:
         cases = gen_probh_cases(ck)
     hl = [c["line"] for c in cases]
-    hout, crashes = cc.pc.run_harness_resilient(harness, hl)
+    hout, crashes = cc.run_resilient(harness, hl)
     ml = [hist_model_line(l, o) for l, o in zip(hl, hout)]
     rc, mout, merr = vv.run_lines(model, "\n".join(ml) + "\n")
     if rc != 0 or len(mout) != len(ml):
@@ -330,6 +332,8 @@ def run_probh_batch(ck, harness, model):
         ck.count()
         ck.nontriv(c["line"])
         ho, mo = hout[k], mout[k]
+        if ho == "SKIPPED":
+            continue
         atexit = ho is not None and ho.startswith("CRASH-AT-EXIT ")
         if atexit:
             ho = ho[len("CRASH-AT-EXIT "):]
@@ -477,7 +481,7 @@ def run_path_batch(ck, harness, model):
         else:
             cases = gen_path_cases(ck, scratch)
         hl = [c["line"] for c in cases]
-        hout, crashes = cc.pc.run_harness_resilient(harness, hl)
+        hout, crashes = cc.run_resilient(harness, hl)
         ml = [path_model_line(c, o) for c, o in zip(cases, hout)]
         rc, mout, merr = vv.run_lines(model, "\n".join(ml) + "\n")
         if rc != 0 or len(mout) != len(ml):
@@ -487,6 +491,8 @@ def run_path_batch(ck, harness, model):
         for k, c in enumerate(cases):
             ck.count()
             ho, mo = hout[k], mout[k]
+            if ho == "SKIPPED":
+                continue
             atexit = ho is not None and ho.startswith("CRASH-AT-EXIT ")
             if atexit:
                 ho = ho[len("CRASH-AT-EXIT "):]
@@ -740,7 +746,7 @@ def run(ck):
     else:
         cases = gen_cases(ck)
     hl = [c["line"] for c in cases]
-    hout, crashes = cc.pc.run_harness_resilient(harness, hl)
+    hout, crashes = cc.run_resilient(harness, hl)
     ml = list(hl)
     xi = [i for i, c in enumerate(cases) if c["mode"] == "xrff"]
     for i, l in zip(xi, cc.xrff_model_lines([hl[i] for i in xi], [hout[i] for i in xi])):
@@ -754,6 +760,8 @@ def run(ck):
     for k, c in enumerate(cases):
         ck.count()
         ho, mo = hout[k], mout[k]
+        if ho == "SKIPPED":
+            continue
         atexit = ho is not None and ho.startswith("CRASH-AT-EXIT ")
         if atexit:
             ho = ho[len("CRASH-AT-EXIT "):]
